@@ -755,6 +755,9 @@ func runC02(r *Run) {
 	rs := r.Rule("C02.reset", "on every path of Decode the attribute list is emptied before anything is appended to its previous content and before every successful return: the reported TLV list is that of this input, not of a previously decoded one", 1)
 	checkDecodeReset(r, rs, dm, FieldVar(msg, "Attributes"))
 	rs.Done()
+	// every copying entry point hands Decode a Raw that holds exactly the given bytes: the verdict is that of
+	// this byte string, whatever the receiving message held before (shared with C08)
+	r.Borrow("C08", map[string]string{"C08.copy": "C02.entry"})
 }
 
 func sortedKeysI(m map[string]ssa.Instruction) []string {
